@@ -47,8 +47,11 @@ type Case struct {
 	Grid   int
 	Module string // "core", "vikja", "odal", "dagaz", "raw"
 	Kind   string
-	Bytes  []byte   // the request, wire bytes
-	Follow [][]byte // follow-up requests sent on the same connection afterwards
+	Bytes  []byte   // the request, wire bytes (filled by Materialise)
+	Follow [][]byte // follow-up requests sent on the same connection afterwards (filled by Materialise)
+	NFollow int
+	req    proto.Message
+	follow []proto.Message
 	Hostile bool    // non finite / huge magnitude numbers inside: expected to be refused, must not panic or exhaust memory
 }
 
@@ -99,15 +102,29 @@ type gen struct {
 }
 
 func (g *gen) add(ctx, grid int, module, kind, variant string, req proto.Message, hostile bool, follow ...proto.Message) {
-	c := Case{Idx: len(g.cases), Ctx: ctx, Grid: grid, Module: module, Kind: kind, Bytes: mustMarshal(req), Hostile: hostile}
-	for _, f := range follow {
-		c.Follow = append(c.Follow, mustMarshal(f))
-	}
+	c := Case{Idx: len(g.cases), Ctx: ctx, Grid: grid, Module: module, Kind: kind, req: req, follow: follow, NFollow: len(follow), Hostile: hostile}
 	c.Name = fmt.Sprintf("%s/%s/%s/%s", ctxNames[ctx], module, kind, variant)
 	if grid != GridFresh {
 		c.Name += "/grid2"
 	}
 	g.cases = append(g.cases, c)
+}
+
+// Materialise marshals the request and its follow-ups (lazily: some are a megabyte long)
+func (c *Case) Materialise() {
+	if c.Bytes == nil && c.req != nil {
+		c.Bytes = mustMarshal(c.req)
+		for _, f := range c.follow {
+			c.Follow = append(c.Follow, mustMarshal(f))
+		}
+	}
+}
+
+// Release drops the marshalled bytes again
+func (c *Case) Release() {
+	if c.req != nil {
+		c.Bytes, c.Follow = nil, nil
+	}
 }
 
 func (g *gen) addRaw(ctx int, kind, variant string, b []byte) {
@@ -378,6 +395,49 @@ func Enumerate() []Case {
 		}
 	}
 
+	// ---------------------------------------------------------------- dagaz, random in-range sequences
+	// (deterministic: splitmix64 seeded by the sequence number) quads, rays and regions with
+	// coordinates a well-behaved client may send, including the edges of any plausible bound
+	for seq := 0; seq < 400; seq++ {
+		r := rng(uint64(seq)*0x9E3779B97F4A7C15 + 12345)
+		scale := []float32{3, 10, 40, 200, 999}[seq%5]
+		co := func() float32 {
+			switch r.next() % 8 {
+			case 0:
+				return float32(int64(r.next()%uint64(2*scale+1)) - int64(scale)) // integers: cell borders
+			case 1:
+				return scale * (1 - 2*float32(r.next()%2))
+			default:
+				return (float32(r.next()%20001)/10000 - 1) * scale
+			}
+		}
+		ext := func() float32 {
+			if r.next()%6 == 0 {
+				return 0
+			}
+			return float32(r.next()%10001) / 10000 * scale / 4
+		}
+		var msgs []proto.Message
+		for k := 0; k < 40; k++ {
+			switch r.next() % 4 {
+			case 0, 1:
+				var qs []*dagazpb.Quad
+				for j := uint64(0); j <= r.next()%3; j++ {
+					y := float32(r.next()%5) * 0.3
+					qs = append(qs, &dagazpb.Quad{Center: pt(co(), y, co()), Extents: pt(ext(), 0, ext())})
+				}
+				msgs = append(msgs, &dagazpb.DagazQuadSample{Type: dagazpb.MsgType_MSG_TYPE_DAGAZ_QUAD_SAMPLE, Timestamp: stamp, Samples: qs})
+			case 2:
+				msgs = append(msgs, &dagazpb.DagazGetGroundPlaneRequest{Type: dagazpb.MsgType_MSG_TYPE_DAGAZ_GET_GROUND_PLANE_REQUEST, Timestamp: stamp, RequestId: uint32(k),
+					Ray: &dagazpb.Ray{From: pt(co(), 2, co()), To: pt(co(), -2, co())}})
+			default:
+				msgs = append(msgs, &dagazpb.DagazGetRegionRequest{Type: dagazpb.MsgType_MSG_TYPE_DAGAZ_GET_REGION_REQUEST, Timestamp: stamp, RequestId: uint32(k), Min: pt(co(), 0, co()), Max: pt(co(), 0, co())})
+			}
+		}
+		msgs = append(msgs, fu...)
+		g.add(CtxJoined, GridFresh, "dagaz", "random_sequence", fmt.Sprintf("seq=%d,scale=%g", seq, scale), msgs[0], false, msgs[1:]...)
+	}
+
 	// ---------------------------------------------------------------- raw bytes
 	// every truncation, and single-byte corruptions, of one valid request per type: what
 	// hagallpb.Msg still accepts reaches the handlers (exactly as on the wire), the rest is
@@ -423,4 +483,15 @@ func Enumerate() []Case {
 		}
 	}
 	return g.cases
+}
+
+// splitmix64
+type rng uint64
+
+func (r *rng) next() uint64 {
+	*r += 0x9E3779B97F4A7C15
+	z := uint64(*r)
+	z = (z ^ (z >> 30)) * 0xBF58476D1CE4E5B9
+	z = (z ^ (z >> 27)) * 0x94D049BB133111EB
+	return z ^ (z >> 31)
 }
